@@ -319,6 +319,11 @@ SEQ_ARG_FUNCS = {"torch.cat", "torch.concat", "tensorflow.concat", "numpy.concat
                  "pandas.concat", "numpy.column_stack"}
 
 
+# positional parameter names of the in-repo functions (filled by model.Program): a call that is not inlined gets one normal
+# form whether its arguments are passed by position or by keyword
+REPO_SIGS: dict = {}
+
+
 class Canon:
     def __init__(self, extra_func_aliases=None, transparent_T=False, opaque=None):
         self.memo: dict[int, T] = {}
@@ -596,10 +601,22 @@ class Canon:
             # slice(a, b) used as a subscript is the subscript a:b
             lo, hi, step = (NONE, args[0], NONE) if len(args) == 1 else (tuple(args) + (NONE,))[:3]
             return self.canon(mk("slice", lo, hi, step))
+        rfq = f.args[0] if (f.op == "global" and f.args[0] in REPO_SIGS) else (f.args[1] if f.op == "boundmethod" and f.args[1] in REPO_SIGS else None)
+        if rfq is not None and args and rfq not in self.fa:
+            names = REPO_SIGS[rfq][1:] if f.op == "boundmethod" else REPO_SIGS[rfq]
+            given = {k for k, _ in kwargs}
+            if len(args) <= len(names) and not (set(names[:len(args)]) & given) and not any(a_.op == "starred" for a_ in args):
+                t = mk("call", f, (), tuple(kwargs) + tuple(zip(names[:len(args)], args)))
+                f, args, kwargs = t.args
         cargs = [self.canon(x) for x in args]
         if f.op == "global" and f.args[0] in SEQ_ARG_FUNCS and cargs and cargs[0].op == "list":
             cargs[0] = mk("tuple", cargs[0].args[0])
         ckw = tuple(sorted(((k, self.canon(v)) for k, v in kwargs), key=lambda kv: kv[0]))
+        if f.op == "global" and f.args[0] in ("numpy.ones", "numpy.zeros", "numpy.empty", "numpy.full"):
+            # dtype=float is the default of these constructors
+            ckw = tuple((k, v) for k, v in ckw if not (k == "dtype" and (
+                (v.op == "global" and v.args[0] in ("builtins.float", "numpy.float64", "numpy.double"))
+                or (v.op == "const" and const_value(v) in ("float", "float64", "f8", "d")))))
         name = None
         recv = None
         if f.op == "global" and ckw:
@@ -619,6 +636,10 @@ class Canon:
                 if len(extra) <= len(sig) - 1 and not any(sig[i + 1] in dict(ckw) for i in range(len(extra))):
                     ckw = tuple(sorted(list(ckw) + [(sig[i + 1], v) for i, v in enumerate(extra)], key=lambda kv: kv[0]))
                     cargs = cargs[:1]
+        if f.op == "global" and f.args[0] in ("numpy.ones", "numpy.zeros", "numpy.empty", "numpy.full"):
+            ckw = tuple((k, v) for k, v in ckw if not (k == "dtype" and (
+                (v.op == "global" and v.args[0] in ("builtins.float", "numpy.float64", "numpy.double"))
+                or (v.op == "const" and const_value(v) in ("float", "float64", "f8", "d")))))
         if f.op == "global":
             name = self.fa.get(f.args[0])
             if name is None:
